@@ -194,7 +194,7 @@ def run(tier, seed):
              'grammar with values, canonical encodings and mutations. distinct = (suite, construct shape, op, outcome class)',
         fragment='primitives proved against the arithmetic specification (props/C03.v); composites, strings, floats and '
                  'mappings pinned by correspondence with the extracted model',
-        partial=['C03 floats: Float16 exhaustively (FloatFacts); single and double precision by correspondence on bit patterns only',
+        partial=['C03 floats: every Float16 / Float32 / Float64 pattern round-trips (FloatFacts, Float32, FloatField); narrowing of doubles that are not representable in the narrower format by correspondence on bit patterns only',
                  'C03 composites: relation enc c v bs not yet stated; concatenation order is covered by C01 theorems'],
         assumptions=['CPython struct/int.to_bytes semantics as read into the model'])
 
